@@ -68,6 +68,11 @@ type G struct {
 	want    map[string]bool
 	maxLen  int
 	nRandom int
+	eqOnly  bool                 // the current element type gets the …eq consistency ops only (its methods are unknown to the Lean model)
+	tnPre   string               // prefix of the type name the ops carry ("L"; finding classes use other prefixes)
+	customE map[string]bool      // local declarations with a hand-written Equal method
+	pools   map[string][]*ty.Val // value pools of local declarations that need special values
+	discard *opw
 	noTwo   bool // the current element type gets no two-value min / max (its argument lists would be ambiguous)
 	force   int  // >= 0: the derive package every placement goes to (shadow-import packages)
 	shadow  bool // the corpus holds the user packages named strings / sort / bytes
@@ -448,7 +453,19 @@ func (g *G) nanLists(pool []*ty.Val) (lists [][]*ty.Val, items []*ty.Val) {
 		}
 	}
 	if len(nans) == 0 {
-		return nil, nil
+		// no float inside: the lists are over the pool alone (Equal-but-not-identical neighbours come first)
+		a, b := pool[0], pool[len(pool)-1]
+		c := pool[1%len(pool)]
+		lists = [][]*ty.Val{nil, {a}, {a, c}, {c, a}, {a, c, b, c, a}, {b, a, c}}
+		for k := 0; k < g.nRandom; k++ {
+			n := 1 + g.rng.Intn(g.maxLen)
+			es := make([]*ty.Val, n)
+			for i := range es {
+				es[i] = pool[g.rng.Intn(len(pool))]
+			}
+			lists = append(lists, es)
+		}
+		return lists, []*ty.Val{a, c, b}
 	}
 	a, nn := pool[0], nans[0]
 	b := pool[len(pool)-1]
@@ -466,6 +483,60 @@ func (g *G) nanLists(pool []*ty.Val) (lists [][]*ty.Val, items []*ty.Val) {
 	return lists, items
 }
 
+// hasEqMethod mirrors derive.HasEqualMethod: the type, or a field / array element that == would compare,
+// declares its own Equal
+func (g *G) hasEqMethod(t *ty.Ty) bool {
+	if t.K == ty.Named {
+		d := g.env.Decls[t.N]
+		if strings.Contains(d.Methods, "E") || g.customE[d.Name] {
+			return true
+		}
+	}
+	u := g.env.Under(t)
+	switch u.K {
+	case ty.Struct:
+		for _, f := range u.Fields {
+			if g.hasEqMethod(f.T) {
+				return true
+			}
+		}
+	case ty.Array:
+		return g.hasEqMethod(u.Elem)
+	}
+	return false
+}
+
+// coarse returns a value that the type's own Equal (first field only) holds equal to v but that differs
+// in another field, somewhere inside v; nil when there is none.
+func (g *G) coarse(t *ty.Ty, v *ty.Val) *ty.Val {
+	u := g.env.Under(t)
+	withElem := func(i int, e *ty.Val) *ty.Val {
+		c := *v
+		c.Elems = append([]*ty.Val(nil), v.Elems...)
+		c.Elems[i] = e
+		return &c
+	}
+	switch {
+	case t.K == ty.Named && strings.Contains(g.env.Decls[t.N].Methods, "E") && u.K == ty.Struct && v.K == ty.VStruct && len(u.Fields) > 1:
+		for _, o := range g.vg.Pool(u.Fields[1].T) {
+			if o.Wire() != v.Elems[1].Wire() {
+				return withElem(1, o)
+			}
+		}
+	case u.K == ty.Struct && v.K == ty.VStruct:
+		for i, f := range u.Fields {
+			if c := g.coarse(f.T, v.Elems[i]); c != nil {
+				return withElem(i, c)
+			}
+		}
+	case (u.K == ty.Ptr && v.K == ty.VPtr) || (u.K == ty.Slice && v.K == ty.VSlice && len(v.Elems) > 0):
+		if c := g.coarse(u.Elem, v.Elems[0]); c != nil {
+			return withElem(0, c)
+		}
+	}
+	return nil
+}
+
 func isBoolUnder(env *ty.Env, t *ty.Ty) bool {
 	u := env.Under(t)
 	return u.K == ty.Basic && u.B == "bool"
@@ -481,7 +552,25 @@ func kindName(k ty.Kind) string {
 // slice-typed elements, inner slices of different lengths whose lexicographic order differs from the
 // derived (nil first, shorter first, then element-wise) order, and nil / empty inner slices.
 func (g *G) elemPool(t *ty.Ty) []*ty.Val {
+	if t.K == ty.Named && g.pools[g.env.Decls[t.N].Name] != nil {
+		return g.pools[g.env.Decls[t.N].Name]
+	}
+	if g.pools[t.Wire()] != nil {
+		return g.pools[t.Wire()]
+	}
 	pool := append([]*ty.Val(nil), g.vg.Pool(t)...)
+	// types with their own (coarser) Equal inside: every one of the first values is followed by a value that
+	// the method holds equal to it although another field differs
+	if gen.HasMethods(g.env, t) {
+		var p2 []*ty.Val
+		for k, v := range pool {
+			p2 = append(p2, v)
+			if c := g.coarse(t, v); c != nil && k < 3 {
+				p2 = append(p2, c)
+			}
+		}
+		pool = p2
+	}
 	u := g.env.Under(t)
 	if u.K == ty.Map {
 		// two maps with the same keys whose order is decided at the SMALLEST key but would be decided the
@@ -522,11 +611,17 @@ func (g *G) elemPool(t *ty.Ty) []*ty.Val {
 // elemOps emits wrappers, registrations and ops of the per-element-type helpers.
 func (g *G) elemOps(i int, t *ty.Ty) {
 	env := g.env
-	tn := fmt.Sprintf("L%d", i)
+	tn := fmt.Sprintf("%s%d", g.tnPre, i)
 	fmt.Fprintf(g.prelude, "ty %s %s\n", tn, t.Wire())
 	gt := t.Go(env, "main")
 	qi := g.pkgOf(t)
 	g.lastPkg = qi
+	emit := g.ow
+	if g.eqOnly {
+		// the modelled ops are not emitted (registrations and wrappers are: the consistency ops use them)
+		g.ow = g.discard
+		defer func() { g.ow = emit }()
+	}
 	q, qn := g.qs[qi], fmt.Sprintf("q%d", qi)
 	g.stat("elem-head:"+kindName(env.Under(t).K), 1)
 	pool := g.elemPool(t)
@@ -626,7 +721,7 @@ func (g *G) elemOps(i int, t *ty.Ty) {
 	}
 	if g.want["unique"] {
 		w("\nfunc Unique_%d(l []%s) []%s { return deriveUnique_%d(l) }\n", i, gt, gt, i)
-		reg("unique", fmt.Sprintf("rt.Unique(%s.Unique_%d, %v)", qn, i, comparable))
+		reg("unique", fmt.Sprintf("rt.Unique(%s.Unique_%d, %v)", qn, i, comparable && !g.hasEqMethod(t)))
 		for _, l := range lists {
 			g.ow.op("unique", tn, g.inst(l).Wire())
 		}
@@ -664,7 +759,8 @@ func (g *G) elemOps(i int, t *ty.Ty) {
 			}
 		}
 	}
-	if floaty(env, t) && (g.want["contains"] || g.want["unique"] || g.want["set"] || g.want["union"] || g.want["intersect"]) {
+	if (floaty(env, t) || g.eqOnly || g.hasEqMethod(t)) && (g.want["contains"] || g.want["unique"] || g.want["set"] || g.want["union"] || g.want["intersect"]) {
+		g.ow = emit
 		// consistency with the emitted Equal, decided on the emitted functions themselves, NaN included
 		nl, items := g.nanLists(pool)
 		if nl != nil {
@@ -690,7 +786,7 @@ func (g *G) elemOps(i int, t *ty.Ty) {
 					g.ow.op("uniqueeq", tn, mkl(l))
 				}
 			}
-			if g.want["set"] && comparable {
+			if g.want["set"] && comparable && !g.hasEqMethod(t) {
 				reg("seteq", fmt.Sprintf("rt.SetEq(%s.Set_%d, %s.Eq_%d)", qn, i, qn, i))
 				for _, l := range nl {
 					g.ow.op("seteq", tn, mkl(l))
@@ -709,6 +805,9 @@ func (g *G) elemOps(i int, t *ty.Ty) {
 				}
 			}
 		}
+	}
+	if g.eqOnly {
+		g.ow = g.discard
 	}
 	type predOp struct{ plugin, op, derive, adapter, res string }
 	for _, po := range []predOp{
@@ -818,7 +917,7 @@ func (g *G) cmpOps(i int, t *ty.Ty, own bool) {
 	if isBasicUnder(env, t) || !(g.want["sort"] || g.want["min"] || g.want["max"]) {
 		return
 	}
-	tn := fmt.Sprintf("L%d", i)
+	tn := fmt.Sprintf("%s%d", g.tnPre, i)
 	gt := t.Go(env, "main")
 	var qi int
 	if own {
@@ -1145,8 +1244,16 @@ func main() {
 		// a struct whose own Compare (pointer parameter) orders by the first field DESCENDING: the order of derived
 		// Compare on RC values is not the field order. The Lean model does not know this method: only the
 		// consistency ops (sortcmp, …) run on it
-		&ty.Decl{Name: "RC", Pkg: "", Under: ty.St(ty.F("A", b("int")), ty.F("B", b("string")))})
+		&ty.Decl{Name: "RC", Pkg: "", Under: ty.St(ty.F("A", b("int")), ty.F("B", b("string")))},
+		// ==-comparable types with their own Equal: UH with a Hash method that agrees with it (value receivers, first
+		// field only: modelled), WH holding one by value; CS / CSH named strings with a case-folding Equal, CSH with a
+		// Hash() int32 that agrees with it (hand-written, unknown to the Lean model: consistency ops only)
+		&ty.Decl{Name: "UH", Pkg: "", Under: ty.St(ty.F("A", b("int")), ty.F("B", b("string"))), Methods: "Ev.Hv"},
+		&ty.Decl{Name: "WH", Pkg: "", Under: ty.St(ty.F("V", n(shadow0+5)), ty.F("N", b("int")))},
+		&ty.Decl{Name: "CS", Pkg: "", Under: b("string")},
+		&ty.Decl{Name: "CSH", Pkg: "", Under: b("string")})
 	word, key, bb, rt, rc := n(shadow0), n(shadow0+1), n(shadow0+2), n(shadow0+3), n(shadow0+4)
+	uh, wh, cs, csh := n(shadow0+5), n(shadow0+6), n(shadow0+7), n(shadow0+8)
 	nu64 := n(46)
 	localSrc := map[string]string{"RC": `
 func (this *RC) Compare(that *RC) int {
@@ -1167,6 +1274,26 @@ func (this *RC) Compare(that *RC) int {
 	}
 	return 0
 }
+
+`, "UH": `func (this UH) Hash() int32 { return int32(this.A) }
+
+`, "CS": `
+func (this CS) Equal(that CS) bool { return fold(string(this)) == fold(string(that)) }
+
+// fold maps ASCII letters to lower case.
+func fold(s string) string {
+	b := []byte(s)
+	for i, c := range b {
+		if 'A' <= c && c <= 'Z' {
+			b[i] = c + 'a' - 'A'
+		}
+	}
+	return string(b)
+}
+
+`, "CSH": `
+func (this CSH) Equal(that CSH) bool { return fold(string(this)) == fold(string(that)) }
+func (this CSH) Hash() int32         { return int32(len(this)) }
 
 `}
 	// element types: basics (incl. bool and complex, which have no <), named basics (incl. a named bool), comparable struct, pointers to structs, slices, a struct
@@ -1253,8 +1380,16 @@ func (this *RC) Compare(that *RC) int {
 	opsf, err := os.Create(filepath.Join(*out, "ops.txt"))
 	must(err)
 	g := &G{env: env, vg: gen.NewVGen(env, rng, cap), rng: rng, ow: &opw{f: opsf, n: map[string]int{}}, m: &m,
-		prelude: &prelude, stats: map[string]int{}, want: want, maxLen: maxLen, nRandom: nRandom, force: -1, qshadow: map[int]bool{}}
+		prelude: &prelude, stats: map[string]int{}, want: want, maxLen: maxLen, nRandom: nRandom, force: -1, qshadow: map[int]bool{}, tnPre: "L", customE: map[string]bool{"CS": true, "CSH": true}}
 
+	dn, err := os.OpenFile(os.DevNull, os.O_WRONLY, 0)
+	must(err)
+	g.discard = &opw{f: dn, n: map[string]int{}}
+	folded := []*ty.Val{sv("a"), sv("A"), sv("ab"), sv("aB"), sv("b"), sv(""), sv("AB"), sv("B")}
+	g.pools = map[string][]*ty.Val{"CS": folded, "CSH": folded,
+		// slices of CSH: not ==-comparable, so Unique buckets by the derived hash, which must ask every element's own Hash
+		ty.Sl(csh).Wire(): {slice([]*ty.Val{folded[0]}, 0), slice([]*ty.Val{folded[1]}, 0), nilv(), slice(nil, 0),
+			slice([]*ty.Val{folded[2], folded[4]}, 0), slice([]*ty.Val{folded[3], folded[7]}, 1), slice([]*ty.Val{folded[4]}, 0)}}
 	perElem := false
 	for _, pl := range []string{"sort", "min", "max", "contains", "unique", "set", "union", "intersect", "filter", "takewhile", "all", "any", "join"} {
 		perElem = perElem || want[pl]
@@ -1305,6 +1440,32 @@ func (this *RC) Compare(that *RC) int {
 				idx++
 			}
 		}
+		// ==-comparable element types with their own Equal. With a Hash that agrees with it (UH, WH holding one):
+		// every op. Without one (UE2) Unique cannot bucket Equal elements together: those ops carry the type
+		// name prefix LNH, which the check maps to a finding class; CS (no Hash) likewise, CSH (named basic with
+		// its own Hash, which the top-level hash function ignores) under LBH.
+		for _, t := range []*ty.Ty{uh, wh} {
+			g.elemOps(idx, t)
+			g.cmpOps(idx, t, false)
+			idx++
+		}
+		g.tnPre = "LNH"
+		g.elemOps(idx, n(32))
+		g.cmpOps(idx, n(32), false)
+		idx++
+		if want["contains"] || want["unique"] {
+			g.eqOnly = true
+			g.elemOps(idx, cs)
+			idx++
+			g.tnPre = "LBH"
+			g.elemOps(idx, csh)
+			idx++
+			g.tnPre = "L"
+			g.elemOps(idx, ty.Sl(csh))
+			idx++
+			g.eqOnly = false
+		}
+		g.tnPre = "L"
 	}
 	if want["keys"] || want["union"] || want["intersect"] {
 		for i, k := range keys {
